@@ -13,7 +13,7 @@ def reset():
     _cache.clear()
 
 
-def paths_of(repo, fi, no_inline=(), inline_extra=(), follow_exceptions=True, max_paths=4000, mark_carried=False):
+def paths_of(repo, fi, no_inline=(), inline_extra=(), follow_exceptions=True, max_paths=24000, mark_carried=False):
     key = (id(repo), id(fi.node), tuple(sorted(no_inline)), tuple(sorted(inline_extra)), follow_exceptions, mark_carried)
     if key not in _cache:
         t = Tracer(repo, no_inline=no_inline, inline_extra=inline_extra, follow_exceptions=follow_exceptions, max_paths=max_paths, mark_carried=mark_carried)
